@@ -78,7 +78,7 @@ theorem requestTerminate_wp (s : EState) (k r : String) : wp (requestTerminate s
   · rfl
   · have hp : wp (termPrep s k r) = wp s := by unfold termPrep; simp only []; split <;> rfl
     split
-    · exact hp
+    · rfl
     · rename_i s' hs
       have h1 := setState_wp hs
       have h2 : wp (termAfter s' k (s.state == .paused)) = wp s' := by
